@@ -29,22 +29,37 @@ class _Norm(ast.NodeTransformer):
 
 
 class _CanonNames(ast.NodeTransformer):
-    def __init__(self):
-        self.names: dict = {}
+    def __init__(self, locals_: set, fixed: dict | None = None):
+        self.locals = locals_
+        self.names: dict = dict(fixed or {})
 
     def visit_Name(self, node):
+        if node.id not in self.locals:
+            return node
         if node.id not in self.names:
             self.names[node.id] = f"v{len(self.names)}"
         return ast.copy_location(ast.Name(id=self.names[node.id], ctx=node.ctx), node)
 
 
 def norm_body(f: FuncInfo) -> str:
+    """The body with lookup names unified and local variables renamed canonically, as a sorted
+    multiset of top-level statements: neither the names of locals nor the order of the
+    (independent) top-level statements is part of the comparison - a statement that used a
+    name before its definition would not survive any test."""
     body = copy.deepcopy(f.node.body)
     mod = ast.Module(body=body, type_ignores=[])
     mod = _Norm().visit(mod)
-    mod = _CanonNames().visit(mod)
-    ast.fix_missing_locations(mod)
-    return ast.unparse(mod)
+    locals_ = {n.id for n in ast.walk(mod) if isinstance(n, ast.Name) and isinstance(n.ctx, (ast.Store, ast.Del))}
+    # number the locals in an order that does not depend on the statement order: walk the
+    # statements sorted by their text with every local blanked out
+    blank = {x: "_" for x in locals_}
+    keyed = sorted(mod.body, key=lambda st: ast.unparse(_CanonNames(locals_, blank).visit(copy.deepcopy(st))))
+    canon = _CanonNames(locals_)
+    for st in keyed:
+        canon.visit(copy.deepcopy(st))
+    fixed = dict(canon.names)
+    out = [ast.unparse(_CanonNames(locals_, fixed).visit(st)) for st in mod.body]
+    return "\n".join(sorted(out))
 
 
 def run(ctx) -> None:
